@@ -87,6 +87,8 @@ pub fn kinds() -> Vec<BVal> {
         BVal::Int(1.into()),
         BVal::Int((-1).into()),
         BVal::Int(8.into()),
+        BVal::Int(127.into()),
+        BVal::Int(128.into()),
         BVal::Int(two(63)),
         BVal::Int(two(64)),
         BVal::Int(two(128)),
@@ -111,6 +113,7 @@ pub fn kinds() -> Vec<BVal> {
         BVal::Pair(Box::new(BVal::Int(0.into())), Box::new(BVal::Bool(true))),
         BVal::Data(RData::I(0.into())),
         BVal::Data(RData::Constr(0, vec![RData::I(1.into())])),
+        BVal::Data(RData::Constr(128, vec![])),
         BVal::G1(bvals::g1_generator()),
         BVal::G2(bvals::g2_generator()),
         BVal::Lam,
@@ -132,7 +135,45 @@ fn run_program(term: Term<NamedDeBruijn>, v: Variant, budget: ExBudget) -> Resul
     guarded(move || {
         let r = program.eval_version_with_protocol(budget, &lang, pv);
         match &r.result {
-            Ok(_) => Ok(()),
+            Ok(t) => {
+                // the value is something callers print (and feed to further builtins): both
+                // must terminate without a crash as well
+                // (a Miller-loop result has no concrete syntax by specification: not rendered)
+                let printable = !matches!(t, Term::Constant(c) if matches!(c.as_ref(), uplc::ast::Constant::Bls12_381MlResult(_)));
+                if printable {
+                    let _ = t.to_pretty();
+                }
+                let follow: &[DefaultFunction] = match t {
+                    Term::Constant(c) => match c.as_ref() {
+                        uplc::ast::Constant::Data(_) => &[DefaultFunction::UnConstrData, DefaultFunction::UnMapData, DefaultFunction::UnListData, DefaultFunction::UnIData, DefaultFunction::UnBData, DefaultFunction::SerialiseData],
+                        uplc::ast::Constant::ProtoList(..) => &[DefaultFunction::HeadList, DefaultFunction::TailList, DefaultFunction::NullList, DefaultFunction::ListData, DefaultFunction::MapData],
+                        uplc::ast::Constant::ProtoPair(..) => &[DefaultFunction::FstPair, DefaultFunction::SndPair],
+                        uplc::ast::Constant::ByteString(_) => &[DefaultFunction::LengthOfByteString, DefaultFunction::BData, DefaultFunction::DecodeUtf8, DefaultFunction::Bls12_381_G1_Uncompress],
+                        uplc::ast::Constant::Integer(_) => &[DefaultFunction::IData],
+                        _ => &[],
+                    },
+                    _ => &[],
+                };
+                for f in follow {
+                    let mut next: Term<NamedDeBruijn> = Term::Builtin(*f);
+                    for _ in 0..f.force_count() {
+                        next = Term::Force(std::rc::Rc::new(next));
+                    }
+                    let next = Term::Apply { function: std::rc::Rc::new(next), argument: std::rc::Rc::new(t.clone()) };
+                    let r2 = Program { version: (1, 1, 0), term: next }.eval_version_with_protocol(budget, &lang, pv);
+                    match &r2.result {
+                        Ok(t2) => {
+                            if !matches!(t2, Term::Constant(c) if matches!(c.as_ref(), uplc::ast::Constant::Bls12_381MlResult(_))) {
+                                let _ = t2.to_pretty();
+                            }
+                        }
+                        Err(e) => {
+                            let _ = e.to_string();
+                        }
+                    }
+                }
+                Ok(())
+            }
             Err(e) => {
                 // the error is a value callers print: rendering it must not crash either
                 let _ = e.to_string();
@@ -318,7 +359,7 @@ pub fn run(tier: Tier, replay: Option<String>) -> i32 {
     }
     let mut run = Run::new("C10", tier);
     part(&mut run, tier);
-    run.set("rule", "all terms (open, index 0, ill-typed) of size <= bound over the C03 alphabet x 4 budgets x 5 variants; every builtin x every tuple of value kinds (27 kinds incl. integer boundaries) x 5 variants; distinct_nontrivial = distinct outcome classes (error variants) observed");
+    run.set("rule", "all terms (open, index 0, ill-typed) of size <= bound over the C03 alphabet x 4 budgets x 5 variants; every builtin x every tuple of value kinds (30 kinds incl. integer boundaries and constructor-tag encoding boundaries) x 5 variants; distinct_nontrivial = distinct outcome classes (error variants) observed");
     run.set("traces_validated_against_impl", run.get("states"));
     run.finish()
 }
